@@ -318,7 +318,21 @@ def runCrash (top : Top) (toks : List String) : Top × List String :=
   let (bk, bimg) := if m.baseK ≤ k then (m.baseK, m.baseImg) else (0, [])
   let bimg' := applyOsOps bimg (coalesce (((ops.drop bk).take (k - bk)).filter (· != .sync)))
   let main' := { m with baseK := k, baseImg := bimg' }
-  let img := crashImage bimg' (ops.drop k) 0 cut
+  let img0 := crashImage bimg' (ops.drop k) 0 cut
+  -- power-loss recipe: files whose creation was not directory-fsynced are dropped, bytes written
+  -- after a file's last fdatasync read as zeros
+  let dropL : List Nat := match kvGet toks "drop" with
+    | some v => (v.splitOn ",").filterMap (fun (t : String) => t.toNat?)
+    | none => []
+  let zeroL : List (Nat × Nat) := match kvGet toks "zero" with
+    | some v => (v.splitOn ",").filterMap fun (t : String) => match t.splitOn ":" with
+        | [a, b] => match a.toNat?, b.toNat? with
+          | some f, some o => some (f, o)
+          | _, _ => none
+        | _ => none
+    | none => []
+  let img1 := img0.filter fun kv => !dropL.contains kv.1
+  let img := zeroL.foldl (fun im (fo : Nat × Nat) => mapFile im fo.1 fun c => c.take fo.2 ++ zeros (c.length - fo.2)) img1
   let (side, out) := openOn {} img (toks.drop 2) none
   ({ top with main := main', side := side }, dirLine img :: out)
 
